@@ -123,6 +123,23 @@ def requests_C02(docs, emitted, seed, tier):
                     if r.random() < (0.6 if tier == "quick" else 1.0):
                         out.append(f"gd {d['name']} {it['name']} {p} {idlgen.sexp(v)} => {want} C02")
                 out += async_lines(r, d, it, v, want, "C02", every=not d["name"].startswith("r"))
+        # payloads on both sides of the 4096-byte thresholds (zero-copy insertion of the writers, pre-allocation cap of the async readers)
+        longs = 0
+        for it in types:
+            if longs >= (4 if tier == "quick" else 16):
+                break
+            v0 = idlgen.gen_item_value(items, it, r, 2)
+            for n in (4096, 4097, 70000):
+                v = idlgen.with_long_payload(v0, n, r)
+                if v is None:
+                    break
+                want = idlgen.expected(items, it["name"], v)
+                if want == "err":
+                    break
+                longs += 1
+                for p in PROTOS:
+                    out.append(f"gd {d['name']} {it['name']} {p} {idlgen.sexp(v)} => {want} C02")
+                out += async_lines(r, d, it, v, want, "C02", every=True)
         # typedef / enum newtypes stand-alone (nothing follows them in the buffer)
         items, aliases = alias_types(d)
         for it in aliases:
@@ -228,6 +245,25 @@ def requests_C19(docs, emitted, seed, tier):
                 v = idlgen.gen_item_value(items, it, r, r.randrange(1, 4))
                 for p in ("bin", "cmp"):
                     out.append(f"gl {d['name']} {it['name']} {p} {idlgen.sexp(v)}")
+    # retention builds (their decoders keep copies of unknown fields while decoding): types without any list, so that the known
+    # list-arm leak cannot occur and every leak is a violation; no ledger model of retention: oracle only
+    for d in docs:
+        if d["name"] + "k" not in emitted:
+            continue
+        items, types = data_types(d)
+        args = idlgen.arg_types(d)
+        for it in types:
+            if it.get("synth") or idlgen.reaches_list(items, it["name"]):
+                continue
+            if idlgen.reaches(items, it["name"], lambda x: x["name"] in args and x["kind"] in ("struct", "exception")):
+                continue          # D12 territory (C13 marks the exact inputs)
+            for _ in range(per):
+                v = idlgen.gen_item_value(items, it, r, r.randrange(1, 3))
+                w = idlgen.inject_unknowns(items, ("ref", it["name"]), v, r, 0.9)
+                if idlgen.union_known_plus_unknown(items, ("ref", it["name"]), w):
+                    continue
+                # (binary only: retention under compact is known finding D37)
+                out.append(f"gl {d['name']}k {it['name']} bin {idlgen.sexp(w)} oracle-only")
     # the witness of Props/C19.list_arm_leaks, on the real emitted code
     out.append("gl da Outer bin (struct (1 (struct (1 (i32 5)))) (12 (bool 1)) (7 (bin 00)) (2 (list struct (struct (1 (i32 1)) (2 (bin 6161616161616161616161616161616161616161616161616161616161))) (struct (1 (i32 2))))))")
     return out
